@@ -3,8 +3,11 @@ Tie B: hand-written Gallina byte-level codec / reader / writers (coq/C15/Model.v
 property theorems in coq/C15/Properties.v; correspondence = extracted model vs the real
 rkcommon/networking/DataStreaming code (ASan+UBSan) on the same cases, every observation diffed;
 an independent python oracle (this file) classifies any difference."""
-import itertools, json, os, struct, subprocess
+import itertools, json, os, re, struct, subprocess, sys
 import vlib
+
+sys.path.insert(0, os.path.dirname(os.path.abspath(__file__)))
+import factgen  # noqa: E402
 
 REPO_SRC = ["rkcommon/networking/DataStreaming.cpp"]
 M64 = 1 << 64
@@ -408,8 +411,42 @@ def case_units(case):
     return "W", t[1:]
 
 
+def regen_facts(ctx):
+    """source-derived obligations: regenerate coq/C15/gen/Facts.v from the working tree (clang JSON AST)"""
+    gen_v = os.path.join(ctx.coqdir, "gen", "Facts.v")
+    try:
+        txt = factgen.main(["--repo", ctx.repo, "--out", gen_v, "--work", os.path.join(ctx.build, "ast")])
+    except Exception as ex:
+        ctx.broken.append("fact extraction failed: %r" % (ex,))
+        txt = factgen.unknown_text()
+        os.makedirs(os.path.dirname(gen_v), exist_ok=True)
+        open(gen_v, "w").write(txt)
+    # compiled files that depend on the facts must not survive a change of the facts
+    for f in ("FactsCheck", "PropertiesFacts"):
+        vo = os.path.join(ctx.coqdir, f + ".vo")
+        if os.path.exists(vo) and os.path.getmtime(vo) < os.path.getmtime(gen_v):
+            os.remove(vo)
+    ctx.cov["source_facts"] = [l for l in txt.splitlines() if l and not l.startswith(("From", "Import", "Local", "(*"))]
+    ctx.trusted.append("fact extractor props/C15/factgen.py over `clang++ -std=c++11 -fsyntax-only -Xclang -ast-dump=json` of "
+                       "DataStreaming.{h,cpp} (statement lists of read/getView/write/reserve, end/available/capacity expressions, "
+                       "length-prefix variable types, enable_if guard, overload selection; anything unrecognised becomes "
+                       "SUnknown/XUnknown/BUnknown, which fails the Coq check)")
+
+
 def run(ctx):
-    ctx.coq_check(("Properties.v",))
+    regen_facts(ctx)
+    res = ctx.coq_check(("Properties.v", "PropertiesFacts.v"))
+    bad_facts = sorted(n for n, ok in res.items() if n.startswith("src_") and not ok)
+    if bad_facts:
+        first = None
+        m = re.search(r'File "\./(FactsCheck|PropertiesFacts)\.v", line (\d+)', getattr(ctx, "coq_log", ""))
+        if m:
+            src = open(os.path.join(ctx.coqdir, m.group(1) + ".v")).read().split("\n")[:int(m.group(2))]
+            names = re.findall(r"^(?:Lemma|Theorem)\s+(\w+)", "\n".join(src), re.M)
+            first = names[-1] if names else None
+        ctx.cov["source_fact_broken_first"] = first
+        ctx.log("source-derived obligations broken (first failing: %s); all of PropertiesFacts.v counted as broken: %s\n  extracted facts:\n    %s"
+                % (first, ", ".join(bad_facts), "\n    ".join(ctx.cov.get("source_facts", []))))
     model = ctx.extract(snippets=["conv_N.ml", "conv_Z.ml"])
     exe = ctx.cxx(["harness.cpp"], "harness", repo_sources=REPO_SRC, sanitize="asan",
                   opt=ctx.pick("-O0", "-O1"), timeout=900)
@@ -574,4 +611,4 @@ def run(ctx):
                         "only changed by the class itself in histories (single calls are proved for arbitrary cursors)",
                         "a non-null mem passed to write()/read() addresses at least size bytes (caller's obligation)"]
     if ctx.thorough():
-        ctx.coq_thorough_chk(["C15.Properties"])
+        ctx.coq_thorough_chk(["C15.Properties", "C15.PropertiesFacts"])
